@@ -184,6 +184,60 @@ func SolveAll(obls []*Obligation, opts SolveOpts) []Result {
 					return
 				}
 			}
+			// a postcondition is a conjunction over the return points: when the whole does not go through quickly, discharge the
+			// conjuncts one by one (all must be unsat; the first that is not decides the result)
+			if len(o.Parts) > 1 && !o.Canary {
+				st, sv, out, ms := runSolvers(q, opts.Solvers, 10, opts.Workdir, fmt.Sprintf("q%dw", i))
+				if st == "unsat" {
+					res[i] = Result{Name: o.Name, Kind: o.Kind, Fn: o.Fn, Status: st, Solver: sv, Ms: ms, Output: out, Pos: o.Pos, Text: o.Text, Query: q}
+					return
+				}
+				var total int64 = ms
+				r := Result{Name: o.Name, Kind: o.Kind, Fn: o.Fn, Status: "unsat", Solver: "", Pos: o.Pos, Text: o.Text, Query: q}
+				for pi, part := range o.Parts {
+					po := *o
+					po.Goal = part
+					po.Parts = nil
+					pq := po.Query(true)
+					pst, psv := "", ""
+					var pout string
+					var pms int64
+					if po.PrefixLen > 300 {
+						for _, depth := range []int{2, 4} {
+							sq := po.QuerySliced(false, depth)
+							if len(sq) > len(pq)*9/10 {
+								continue
+							}
+							pst, psv, pout, pms = runSolvers(sq, opts.Solvers, 8, opts.Workdir, fmt.Sprintf("q%dp%ds%d", i, pi, depth))
+							total += pms
+							if pst == "unsat" {
+								psv += fmt.Sprintf("(slice%d)", depth)
+								break
+							}
+						}
+					}
+					if pst != "unsat" {
+						to := opts.TimeoutS
+						if opts.ShortFor[o.Name] && to > 5 {
+							to = 5
+						}
+						pst, psv, pout, pms = runSolvers(pq, opts.Solvers, to, opts.Workdir, fmt.Sprintf("q%dp%d", i, pi))
+						total += pms
+					}
+					r.Solver = psv + fmt.Sprintf("(by return point, %d parts)", len(o.Parts))
+					if pst != "unsat" {
+						r.Status, r.Output, r.Query = pst, pout, pq
+						if pst == "sat" {
+							r.Model = pout
+						}
+						r.Text = o.Text + fmt.Sprintf(" [return point %d of %d]", pi+1, len(o.Parts))
+						break
+					}
+				}
+				r.Ms = total
+				res[i] = r
+				return
+			}
 			to := opts.TimeoutS
 			if o.Canary && to > 4 {
 				to = 4 // a canary only has to *fail to be proved*; contradictions show up fast
